@@ -8,10 +8,13 @@ import (
 	"net"
 	"net/http"
 	"strconv"
+	"strings"
 	"sync"
 
 	"github.com/caddyserver/caddy/v2"
+	"github.com/caddyserver/caddy/v2/caddyconfig"
 	"github.com/caddyserver/caddy/v2/modules/caddyhttp"
+	"github.com/caddyserver/certmagic"
 )
 
 // ---------------------------------------------------------------- harness-global probe state
@@ -335,6 +338,57 @@ func (l *ProbeLoader) Cleanup() error {
 
 func (l *ProbeLoader) LoadConfig(caddy.Context) ([]byte, error) { return nil, nil }
 
+// ---------------------------------------------------------------- storage module
+
+// ProbeStorage is a storage module (caddy.storage.verif_probe): a file storage in the private
+// directory that remembers which configured storage it is.
+type ProbeStorage struct{ probeCore }
+
+func (ProbeStorage) CaddyModule() caddy.ModuleInfo {
+	return caddy.ModuleInfo{ID: "caddy.storage.verif_probe", New: func() caddy.Module { return new(ProbeStorage) }}
+}
+
+// Provision / Cleanup: probe events only — a storage module holds no usage-pool reference.
+func (p *ProbeStorage) Provision(ctx caddy.Context) error {
+	mu.Lock()
+	p.cid, p.nonce = curOp, caseNonce
+	mu.Unlock()
+	noteCtx(p.cid, ctx)
+	logEv("p", p.cid, p.App, p.Idx)
+	if p.Fail == "provision" {
+		return errors.New("probe storage: provision fault")
+	}
+	return nil
+}
+
+func (p *ProbeStorage) Cleanup() error {
+	logEv("c", p.cid, p.App, p.Idx)
+	return nil
+}
+
+type probeCertStorage struct {
+	*certmagic.FileStorage
+	key int
+}
+
+func (p *ProbeStorage) CertMagicStorage() (certmagic.Storage, error) {
+	return &probeCertStorage{&certmagic.FileStorage{Path: privDir + "/stor-" + strconv.Itoa(p.Key)}, p.Key}, nil
+}
+
+// DefaultStorageKey: which storage certmagic.Default.Storage is — 0 caddy.DefaultStorage, k probe
+// storage k, 99 anything else.
+func DefaultStorageKey() int {
+	switch st := certmagic.Default.Storage.(type) {
+	case *probeCertStorage:
+		return st.key
+	case *certmagic.FileStorage:
+		if st == caddy.DefaultStorage {
+			return 0
+		}
+	}
+	return 99
+}
+
 // ---------------------------------------------------------------- admin.api module (admin routers)
 
 // ProbeAdminAPI is an admin router: with the admin endpoint enabled, newAdminHandler instantiates
@@ -383,6 +437,24 @@ func init() {
 	caddy.RegisterModule(ProbeLoader{})
 	caddy.RegisterModule(ProbeWrapper{})
 	caddy.RegisterModule(ProbeAdminAPI{})
+	caddy.RegisterModule(ProbeStorage{})
+	caddyconfig.RegisterAdapter("verifabs", absAdapter{})
+}
+
+// absAdapter is a config adapter (Content-Type text/verifabs on POST /load): the body is the
+// abstract configuration text followed by a space and 0/1 (admin endpoint on), the result its JSON.
+type absAdapter struct{}
+
+func (absAdapter) Adapt(body []byte, _ map[string]any) ([]byte, []caddyconfig.Warning, error) {
+	f := strings.Fields(string(body))
+	if len(f) != 2 {
+		return nil, nil, errors.New("verifabs: want <cfg> <adm>")
+	}
+	c, ok := parseCfg(f[0])
+	if !ok {
+		return nil, nil, errors.New("verifabs: not an abstract configuration")
+	}
+	return Render(c, f[1] == "1"), nil, nil
 }
 
 var (
